@@ -6,6 +6,7 @@ import (
 	"sync/atomic"
 
 	"github.com/zishang520/engine.io/v2/engine"
+	"github.com/zishang520/engine.io/v2/transports"
 	"github.com/zishang520/engine.io/v2/verifhook"
 )
 
@@ -14,7 +15,7 @@ var Points = []string{
 	"socket.OnClose.window", "socket.Close.window", "socket.Close.beforeDrainWait", "socket.onDrain.afterShift", "socket.doFlush.batchTaken", "map.slowPath", "socket.readyState",
 	"server.Handshake.afterNewSocket", "server.onWebSocket.beforeMaybeUpgrade",
 	"socket.MaybeUpgrade.enter", "socket.upgrade.check.window",
-	"polling.send.start", "polling.write.requestTaken", "ws.send.start", "wt.send.start",
+	"polling.send.start", "polling.write.requestTaken", "polling.onPollRequest.beforePublish", "polling.onDataRequest.beforePublish", "ws.send.start", "wt.send.start",
 	"timer.interval.afterTick", "timer.Stop.afterStop", "socket.ping.between",
 	"wt.nilSession.CloseWithError",
 }
@@ -59,7 +60,16 @@ func init() {
 			}
 			if g, ok := registry.Load(args[0]); ok {
 				g.(*Gate).arrive(pt, args)
-			} else if s, ok := args[0].(interface{ Server() engine.BaseServer }); ok {
+				return
+			}
+			if pr, ok := args[0].(interface{ Proto() transports.Transport }); ok && pr.Proto() != nil {
+				// the polling core of a JSONP transport: the session knows the outer object
+				if g, ok := registry.Load(pr.Proto()); ok {
+					g.(*Gate).arrive(pt, args)
+					return
+				}
+			}
+			if s, ok := args[0].(interface{ Server() engine.BaseServer }); ok {
 				// a session not yet announced: route by its server
 				if g, ok := registry.Load(s.Server().Proto()); ok {
 					g.(*Gate).arrive(pt, args)
